@@ -27,7 +27,7 @@ FLOORS = {
               'stopped_by_cap': 20, 'countpass_checked': 30, 'twin_histories': 60, 'twin_compares': 1500,
               'channel:args': 20, 'channel:mem': 20, 'channel:xlsx': 10, 'channel:json': 4,
               'channel:yml': 4, 'channel:pkl': 4, 'via_range': 20, 'twin_writes': 200,
-              'second_call_without_arguments': 10, 'twins_with_reference_valued_cells': 20},
+              'second_call_without_arguments': 10, 'twins_with_reference_valued_cells': 20, 'directed:slow_system': 1},
     'thorough': {'systems': 2500, 'stopped_by_tolerance': 1200, 'stopped_by_cap': 500,
                  'twin_histories': 1500, 'twin_compares': 40000},
 }
@@ -423,7 +423,18 @@ def _twin_history(ctx, spec, meta, channel, plain, it, ops, rng, n_ops):
                                            'ops': done})
 
 
+def slow_system(ctx):
+    """directed: a loop that contracts so slowly that the tolerance is only met after more than 32 767 passes (the
+    largest iteration count Excel's own dialog takes), asked for 40 000: A1 = A1*0.9998+1, tolerance 0.001"""
+    spec = {'sheets': [['Sheet1', {'A1': '=A1*0.9998+1'}]], 'names': {}, 'arrays': [], 'calc': None}
+    info = {'A': [[0.9998]], 'b': [1.0], 'q': 0.9998, 'fixed': [5000.0], 'cells': ['Sheet1!A1'], 'via_range': False, 'n': 1}
+    ctx.count('directed:slow_system')
+    one_system(ctx, spec, info, 'args', (40000, 0.001), 'Sheet1!A1', False)
+
+
 def run(ctx):
+    if ctx.shard == 2 % ctx.nshards:
+        slow_system(ctx)
     if ctx.shard == ctx.nshards - 1:
         # the repository's own test-suite as one more workload under the monitors (vp.suitemon)
         from vp import suiteload
